@@ -37,6 +37,9 @@ func (f SolarChargerBatteryTypeFactoryType) New(v uint8) (SolarChargerBatteryTyp
 }
 
 func (f SolarChargerBatteryTypeFactoryType) NewEnum(v int) (Enum, error) {
+	if v < 0 || v > 255 {
+		return nil, ErrInvalidEnumIdx
+	}
 	return f.New(uint8(v))
 }
 
